@@ -348,7 +348,7 @@ class SimFS(object):
 
 
 # ------------------------------------------------------------------------------------------------ inputs
-def gen_inputs(r, n_mut=None, n_samples=None, clustered=None):
+def gen_inputs(r, n_mut=None, n_samples=None, clustered=None, exotic=False):
     n_mut = n_mut if n_mut is not None else r.choice([1, 2, 3, 4, 5, 6, 8])
     n_samples = n_samples if n_samples is not None else r.choice([1, 1, 2, 3])
     scheme = r.choice(["S", "S", "rev", "num"])
@@ -362,7 +362,12 @@ def gen_inputs(r, n_mut=None, n_samples=None, clustered=None):
     rows = []
     id_scheme = r.choice(["m", "m", "m", "gene"])
 
+    if exotic:
+        id_scheme = r.choice(["m", "gene", "odd"])
+
     def mut_name(m):
+        if id_scheme == "odd":
+            return ["g\u00e8ne %d" % m, 'q"%d"' % m, "a,b;%d" % m, "%d" % (100 - m)][m % 4]  # unicode, quotes, separators, numeric-looking
         return "m%02d" % m if id_scheme == "m" else "chr%d:%d:A>T" % (1 + m % 3, 1000 * (10 - m))  # ids whose sort order is not the creation order
 
     style = r.choice(["normal", "normal", "identical", "depth0"])
@@ -402,22 +407,30 @@ def gen_inputs(r, n_mut=None, n_samples=None, clustered=None):
             for s in samples:
                 crow.append({"mutation_id": m, "sample_id": s, "cluster_id": c})
         inp["cluster_rows"] = crow
+        inp["cluster_extra_cols"] = exotic and r.random() < 0.5
     return inp
 
 
 def write_inputs(d, inp):
     p = os.path.join(d, "input.tsv")
-    with open(p, "w") as fh:
-        fh.write(inp["sep"].join(inp["cols"]) + "\n")
+    import csv as _csv
+
+    with open(p, "w", newline="") as fh:
+        w = _csv.writer(fh, delimiter=inp["sep"])
+        w.writerow(inp["cols"])
         for row in inp["rows"]:
-            fh.write(inp["sep"].join(str(row[c]) for c in inp["cols"]) + "\n")
+            w.writerow([row[c] for c in inp["cols"]])
     cp = None
     if inp.get("cluster_rows"):
         cp = os.path.join(d, "clusters.tsv")
-        with open(cp, "w") as fh:
-            fh.write("mutation_id\tsample_id\tcluster_id\n")
+        import csv as _csv
+
+        with open(cp, "w", newline="") as fh:
+            w = _csv.writer(fh, delimiter="\t")
+            extra = bool(inp.get("cluster_extra_cols"))
+            w.writerow(["mutation_id", "sample_id", "cluster_id"] + (["cellular_prevalence", "chrom"] if extra else []))
             for row in inp["cluster_rows"]:
-                fh.write("%s\t%s\t%s\n" % (row["mutation_id"], row["sample_id"], row["cluster_id"]))
+                w.writerow([row["mutation_id"], row["sample_id"], row["cluster_id"]] + ([0.5, "chr1"] if extra else []))
     return p, cp
 
 
@@ -824,9 +837,9 @@ def warm_up():
         run_summaries(h["image"], ("topology", None, True))
 
 
-def spec_from_seed(seed, boundary=True, chains=None, finite_clock=None, clustered=None, n_mut=None):
+def spec_from_seed(seed, boundary=True, chains=None, finite_clock=None, clustered=None, n_mut=None, n_samples=None, exotic=False):
     r = random.Random(seed)
-    inp = gen_inputs(r, clustered=clustered, n_mut=n_mut)
+    inp = gen_inputs(r, clustered=clustered, n_mut=n_mut, n_samples=n_samples, exotic=exotic)
     opts = gen_options(r, boundary=boundary)
     if chains is not None:
         opts["num_chains"] = chains
